@@ -125,6 +125,9 @@ func run(b *harness.B) {
 	case 1:
 		runV1Chain(b)
 		runExtreme(b)
+		if b.Batch == 1 {
+			runHostileAmounts(b)
+		}
 	default:
 		runV4(b)
 	}
